@@ -202,7 +202,20 @@ impl PhoneticSuggestion {
         // Sort the suggestions.
         self.suggestions.sort();
 
-        let selection = self.get_prev_selection(&string, data, selections);
+        let mut selection = self.get_prev_selection(&string, data, selections);
+
+        // The typed text is kept as it was typed (no converted or curved meta characters
+        // around it), so look for it when it is what the user had selected for the word.
+        if selection == 0
+            && !string.word().is_empty()
+            && selections.get(string.word()).map(String::as_str) == Some(string.word())
+        {
+            selection = self
+                .suggestions
+                .iter()
+                .position(|item| item.to_string() == term)
+                .unwrap_or_default();
+        }
 
         (self.suggestions.clone(), selection)
     }
